@@ -63,30 +63,36 @@ impl VIOT {
 
         // The header also contains a count of the number of nodes, so
         // replace the bytes of the old count with those of the new.
-        let old_count = self.nodes.len() as u16;
-        let new_count = old_count + 1;
+        let old_count = u16::try_from(self.nodes.len()).unwrap();
+        let new_count = old_count.checked_add(1).unwrap();
         self.checksum.delete(old_count.as_bytes());
         self.checksum.append(new_count.as_bytes());
 
         self.header.checksum = self.checksum.value();
     }
 
+    // Node offsets are 16 bits wide: refuse to grow past what they can express.
+    fn advance_handle(&mut self, len: usize) {
+        let len = u16::try_from(len).unwrap();
+        self.handle_offset = self.handle_offset.checked_add(len).unwrap();
+    }
+
     pub fn add_pci_range(&mut self, range: PciRange) {
         self.update_header(range.u8sum(), PciRange::len() as u32);
-        self.handle_offset += PciRange::len() as u16;
+        self.advance_handle(PciRange::len());
         self.nodes.push(Box::new(range));
     }
 
     pub fn add_mmio_endpoint(&mut self, ep: MmioEndpoint) {
         self.update_header(ep.u8sum(), MmioEndpoint::len() as u32);
-        self.handle_offset += MmioEndpoint::len() as u16;
+        self.advance_handle(MmioEndpoint::len());
         self.nodes.push(Box::new(ep));
     }
 
     pub fn add_virtio_pci_iommu(&mut self, iommu: VirtIoPciIommu) -> TranslationHandle {
         let old_offset = self.handle_offset;
         self.update_header(iommu.u8sum(), VirtIoPciIommu::len() as u32);
-        self.handle_offset += VirtIoPciIommu::len() as u16;
+        self.advance_handle(VirtIoPciIommu::len());
         self.nodes.push(Box::new(iommu));
         TranslationHandle(old_offset)
     }
@@ -94,7 +100,7 @@ impl VIOT {
     pub fn add_virtio_mmio_iommu(&mut self, iommu: VirtIoMmioIommu) -> TranslationHandle {
         let old_offset = self.handle_offset;
         self.update_header(iommu.u8sum(), VirtIoMmioIommu::len() as u32);
-        self.handle_offset += VirtIoMmioIommu::len() as u16;
+        self.advance_handle(VirtIoMmioIommu::len());
         self.nodes.push(Box::new(iommu));
         TranslationHandle(old_offset)
     }
@@ -107,7 +113,7 @@ impl VIOT {
 impl Aml for VIOT {
     fn to_aml_bytes(&self, sink: &mut dyn AmlSink) {
         sink.vec(self.header.as_bytes());
-        sink.word(self.nodes.len() as u16);
+        sink.word(u16::try_from(self.nodes.len()).unwrap());
         sink.word(NODE_OFFSET);
         sink.qword(0); // reserved
 
